@@ -57,6 +57,8 @@ def cases(tier, seed):
                       soil_names=["Clay", "ClayLoam", "SiltClay", "SandyClay", "Loam"], p_custom=0.1,
                       methods=(0, 0, 1, 3), regimes=["warm", "arid", "temperate"], seasons=(2, 4), off_season=False,
                       iwc_kinds=("FC", "Pct"), hostile=False, p_gw=0.0, harvest_early=0.0)
+        if cls == 2 and i % 12 == 2:
+            kw.update(crops=[c for c in common.cd_crops() if c in gen.usable_crops()], regimes=["polar"], p_file=0.0, methods=(0,))
         sp = gen.config(rng, **kw)
         if cls == 5 and i % 4 == 1:
             # deficit irrigation that keeps the root zone between the expansion and the stomatal
